@@ -200,6 +200,25 @@ class Engine(EngineBase):
                      ["init", -1], ["sp_nested", -2, route, v], ["sp_set", -2, "c", 3]]
             at = rng.randrange(0, len(ops) + 1)
             ops[at:at] = block
+        if P == "C04" and rng.random() < 0.10:
+            # a change that is refused because the destination exists and differs from the source only in
+            # the TYPE of one value (False / 0, 1 / True, 1 / 1.0): the handle must go back to the old value,
+            # not to one that merely compares equal; then the next legitimate edit
+            old_v, new_v = rng.choice([(False, 0), (0, False), (1, True), (True, 1), (1, 1.0), (2.0, 2)])
+            a, b = {"a": 9, "c": old_v}, {"a": 9, "c": new_v}
+            block = [["open", 0, a, False], ["init", -1], ["open", 0, b, False], ["init", -1],
+                     ["sp_set", -2, "c", new_v], ["sp_set", -2, "b", 4]]
+            at = rng.randrange(0, len(ops) + 1)
+            ops[at:at] = block
+        if P == "C04" and rng.random() < 0.08:
+            # a whole assignment that is refused, through a handle opened by id in a fresh session without a
+            # cache file whose state point was never looked at; then the next legitimate edit
+            a, b = {"a": 10, "c": 1}, {"a": 10, "c": 2}
+            block = [["open", 0, a, False], ["init", -1], ["open", 0, b, False], ["init", -1], ["restart"],
+                     ["rm_cache", 0], ["open_id", 0, a, 32],
+                     ["sp_assign", -1, b, rng.choice(["sp", "statepoint"])], ["sp_set", -1, "b", 4]]
+            at = rng.randrange(0, len(ops) + 1)
+            ops[at:at] = block
         sc["ops"] = ops
         return sc
 
@@ -472,7 +491,13 @@ class Run:
         ids = sorted(self.model[pi])
         if not ids:
             return
-        jid = ids[jsel % len(ids)]
+        if isinstance(jsel, dict):
+            # (scripted blocks name the job by its state point)
+            if cid(jsel) not in self.model[pi]:
+                return
+            jid = cid(jsel)
+        else:
+            jid = ids[jsel % len(ids)]
         key = jid
         want = None
         if plen != 32 and not self.decoys[pi]:
